@@ -7,12 +7,15 @@ package main
 // opening the local file of the same path.
 
 import (
+	"encoding/json"
 	"fmt"
 	"net/url"
 	"os"
 	"path/filepath"
 	"strings"
 
+	"github.com/getkin/kin-openapi/openapi2"
+	"github.com/getkin/kin-openapi/openapi2conv"
 	"github.com/getkin/kin-openapi/openapi3"
 )
 
@@ -243,4 +246,108 @@ func c11Extra(outDir string, meta *Meta) {
 		}
 	}
 	os.RemoveAll(dir2)
+	// ---- (5) a path item file that holds nothing but servers, reached through a callback of a document in a
+	// sub-directory: the reference is written in sub/cb.yml, so sub/item.yml is the one location it designates ----
+	{
+		dir3, _ := filepath.Abs(filepath.Join(outDir, "cbitem"))
+		os.RemoveAll(dir3)
+		files := map[string]string{
+			"root.yml": `{"openapi":"3.0.0","info":{"title":"t","version":"1"},"paths":{"/p":{"post":{"responses":{"200":{"description":"ok"}},` +
+				`"callbacks":{"cb":{"$ref":"sub/cb.yml#/components/callbacks/C"}}}}}}`,
+			"sub/cb.yml": `{"openapi":"3.0.0","info":{"title":"t","version":"1"},"paths":{},` +
+				`"components":{"callbacks":{"C":{"{$request.body#/url}":{"$ref":"item.yml"}}}}}`,
+		}
+		for _, content := range []struct{ kind, right, wrong string }{
+			{"servers-only", `{"servers":[{"url":"http://right.example"}]}`, `{"servers":[{"url":"http://wrong.example"}]}`},
+			{"parameters-only", `{"parameters":[{"name":"right","in":"query","schema":{"type":"string"}}]}`, `{"parameters":[{"name":"wrong","in":"query","schema":{"type":"string"}}]}`},
+			{"summary-only", `{"summary":"right"}`, `{"summary":"wrong"}`},
+			{"operation", `{"get":{"operationId":"right","responses":{"200":{"description":"ok"}}}}`, `{"get":{"operationId":"wrong","responses":{"200":{"description":"ok"}}}}`},
+		} {
+			files["sub/item.yml"], files["item.yml"] = content.right, content.wrong
+			for name, text := range files {
+				fp := filepath.Join(dir3, filepath.FromSlash(name))
+				must(os.MkdirAll(filepath.Dir(fp), 0o755))
+				must(os.WriteFile(fp, []byte(text), 0o644))
+			}
+			at := func(name string) string { return filepath.ToSlash(filepath.Join(dir3, filepath.FromSlash(name))) }
+			designated := map[string]bool{at("root.yml"): true, at("sub/cb.yml"): true, at("sub/item.yml"): true}
+			var reads []string
+			loader := openapi3.NewLoader()
+			loader.IsExternalRefsAllowed = true
+			loader.ReadFromURIFunc = func(l *openapi3.Loader, u *url.URL) ([]byte, error) {
+				reads = append(reads, u.Path)
+				return openapi3.ReadFromFile(l, u)
+			}
+			desc := map[string]any{"callback_path_item_file": content.kind, "files": []string{"root.yml", "sub/cb.yml", "sub/item.yml", "item.yml (referenced by nothing)"}}
+			meta.Histogram["callback path item file cases"]++
+			var doc *openapi3.T
+			var err error
+			if pn := catchPanic(func() { doc, err = loader.LoadFromFile(at("root.yml")) }); pn != nil {
+				viol("callback-item:panic", desc, fmt.Sprint(pn))
+				continue
+			}
+			for _, r := range reads {
+				if !designated[r] {
+					viol("callback-item:read-of-a-file-no-reference-designates:"+content.kind, desc, "reads: "+strings.Join(reads, ", "))
+					break
+				}
+			}
+			if err == nil && doc != nil {
+				b, _ := doc.MarshalJSON()
+				if strings.Contains(string(b), "wrong") {
+					viol("callback-item:content-of-a-file-no-reference-designates:"+content.kind, desc, string(b))
+				}
+			}
+		}
+		os.RemoveAll(dir3)
+	}
+	// ---- (6) openapi2conv.ToV3 takes no loader: it behaves as the default, external references are not followed ----
+	{
+		dir4, _ := filepath.Abs(filepath.Join(outDir, "v2ext"))
+		os.RemoveAll(dir4)
+		must(os.MkdirAll(dir4, 0o755))
+		secret := filepath.Join(dir4, "defs.json")
+		must(os.WriteFile(secret, []byte(`{"components":{"schemas":{"Pet":{"type":"string","description":"SECRET"}}},"definitions":{"Pet":{"type":"string","description":"SECRET"}}}`), 0o644))
+		for _, ref := range []string{secret + "#/definitions/Pet", secret + "#/components/schemas/Pet", "file://" + filepath.ToSlash(secret) + "#/definitions/Pet", "defs.json#/definitions/Pet"} {
+			for _, where := range []string{"definition", "property", "body-parameter", "response"} {
+				r := `{"$ref":"` + ref + `"}`
+				defs, param, resp := `{"Local":{"type":"string"}}`, `{"name":"b","in":"body","schema":{"type":"string"}}`, `{"description":"ok"}`
+				switch where {
+				case "definition":
+					defs = `{"Local":` + r + `}`
+				case "property":
+					defs = `{"Local":{"type":"object","properties":{"p":` + r + `}}}`
+				case "body-parameter":
+					param = `{"name":"b","in":"body","schema":` + r + `}`
+				default:
+					resp = `{"description":"ok","schema":` + r + `}`
+				}
+				text := `{"swagger":"2.0","info":{"title":"t","version":"1"},"paths":{"/a":{"post":{"parameters":[` + param + `],"responses":{"200":` + resp + `}}}},"definitions":` + defs + `}`
+				var d2 openapi2.T
+				if json.Unmarshal([]byte(text), &d2) != nil {
+					continue
+				}
+				reads := 0
+				old := openapi3.DefaultReadFromURI
+				openapi3.DefaultReadFromURI = func(l *openapi3.Loader, u *url.URL) ([]byte, error) { reads++; return old(l, u) }
+				var d3 *openapi3.T
+				var err error
+				pn := catchPanic(func() { d3, err = openapi2conv.ToV3(&d2) })
+				openapi3.DefaultReadFromURI = old
+				desc := map[string]any{"v2_reference": strings.ReplaceAll(ref, dir4, "<dir>"), "position": where}
+				meta.Histogram["v2 external reference cases"]++
+				leaked := false
+				if d3 != nil {
+					b, _ := d3.MarshalJSON()
+					leaked = strings.Contains(string(b), "SECRET")
+				}
+				if pn != nil {
+					viol("v2-conversion:panic", desc, fmt.Sprint(pn))
+				} else if reads > 0 || leaked {
+					viol("v2-conversion:external-reference-followed", desc, fmt.Sprintf("reads=%d content copied=%v err=%v", reads, leaked, err))
+				}
+			}
+		}
+		os.RemoveAll(dir4)
+	}
 }
